@@ -18,6 +18,7 @@ Mirrors, function by function:
   `processFastRetransmission` → `fastRetransCheck` (`frLoop` / `missLoop`, `frPost`),
   `finishAcknowledgement` PR part → `prStep` (`advancePeerAck` / `advLoop`), RACK marks → `applyMarks`
 * `onRetransmissionTimeout(T3)` → `t3` (`markAllToRetransmit`)
+* `gatherOutboundForwardTSNPackets` / `createForwardTSN` / `createIForwardTSN` → `fwdOut` (`forwardTSN`, `iForwardTSN` over `fwdChunks`)
 * `payloadQueue` (`pushNoCheck/pop/get/markAsAcked/markAllToRetrasmit/getNumBytes`) → the list `inflight`
   with the byte counter `infBytes`; `get` is by offset from the front chunk's TSN exactly as in the code.
   The ring buffer of queue.go is represented by the list of its live elements.
@@ -55,7 +56,8 @@ structure Cfg where
   useInterleaving : Bool := false      -- a.useInterleaving: chunks are I-DATA
   maxPayload : BitVec 32               -- a.maxPayloadSize
   maxMessageSize : BitVec 32 := 65536
-  prEnabled : Bool := true             -- partialReliabilityEnabled()
+  prEnabled : Bool := true             -- partialReliabilityEnabled() = useForwardTSN || useIForwardTSN
+  useIForwardTSN : Bool := false       -- a.useIForwardTSN (negotiated only together with interleaving; implies prEnabled)
   deriving Inhabited
 
 structure Chunk where
@@ -457,12 +459,63 @@ def bundle (mtu : BitVec 32) (il : Bool) : List Chunk → List Chunk → Int →
 def marshalLen (il : Bool) (p : List Chunk) : Int :=
   p.foldl (fun raw c => let r := raw + c.size il; r + getPadding r) (packetHeaderSize : Int)
 
+/-! ## FORWARD-TSN / I-FORWARD-TSN contents (`createForwardTSN`, `createIForwardTSN`, `gatherOutboundForwardTSNPackets`) -/
+
+/-- the chunks the loop `for i := cumAck+1; sna32LTE(i, advancedPeerTSNAckPoint); i++ { c, ok := get(i); if !ok { break } … }`
+of `createForwardTSN` / `createIForwardTSN` visits (fuel = queue length + 1 suffices: consecutive offsets, `get` fails once past the end) -/
+def fwdScan (s : St) : Nat → BitVec 32 → List Chunk
+  | 0, _ => []
+  | fuel+1, i =>
+    if sna32LTE i s.advPeerAck then
+      match get s.inflight i with
+      | none => []
+      | some (_, c) => c :: fwdScan s fuel (i + 1)
+    else []
+
+def fwdChunks (s : St) : List Chunk := fwdScan s (s.inflight.length + 1) (s.cumAck + 1)
+
+/-- `m[k] = v` unless an entry that is not smaller (`lt old v` false) is there already — "report only once with the greatest";
+the Go map is a list in first-touch order (its iteration order is canonicalised before comparison) -/
+def upsertMax {K V : Type} [DecidableEq K] (lt : V → V → Bool) : List (K × V) → K → V → List (K × V)
+  | [], k, v => [(k, v)]
+  | (k', v') :: r, k, v => if k' = k then (k', if lt v' v then v else v') :: r else (k', v') :: upsertMax lt r k v
+
+/-- the stream list of `createForwardTSN`: unordered chunks are not listed (RFC 3758 §3.2), per stream the greatest SSN -/
+def fwdStreams : List Chunk → List (BitVec 16 × BitVec 16) → List (BitVec 16 × BitVec 16)
+  | [], m => m
+  | c :: r, m => fwdStreams r (if c.unordered then m else upsertMax sna16LT m c.si c.ssn)
+
+/-- the two maps of `createIForwardTSN`: per (stream, unordered flag) the greatest MID; key = (stream, unordered) -/
+def ifwdStreams : List Chunk → List ((BitVec 16 × Bool) × BitVec 32) → List ((BitVec 16 × Bool) × BitVec 32)
+  | [], m => m
+  | c :: r, m => ifwdStreams r (upsertMax sna32LT m (c.si, c.unordered) c.mid)
+
+/-- `createForwardTSN`: new cumulative TSN and the (stream, SSN) list -/
+def forwardTSN (s : St) : BitVec 32 × List (BitVec 16 × BitVec 16) := (s.advPeerAck, fwdStreams (fwdChunks s) [])
+
+/-- `createIForwardTSN`: new cumulative TSN and the ((stream, unordered), MID) list -/
+def iForwardTSN (s : St) : BitVec 32 × List ((BitVec 16 × Bool) × BitVec 32) := (s.advPeerAck, ifwdStreams (fwdChunks s) [])
+
+inductive Fwd where
+  | fwd (newCum : BitVec 32) (streams : List (BitVec 16 × BitVec 16))
+  | ifwd (newCum : BitVec 32) (streams : List ((BitVec 16 × Bool) × BitVec 32))
+  deriving BEq, Repr, Inhabited
+
+/-- `gatherOutboundForwardTSNPackets` (before it clears the flag): the chunk it puts on the wire, if any -/
+def fwdOut (s : St) : Option Fwd :=
+  if s.willSendForwardTSN && sna32GT s.advPeerAck s.cumAck then
+    if s.cfg.useIForwardTSN then some (.ifwd (iForwardTSN s).1 (iForwardTSN s).2)
+    else if s.cfg.prEnabled then some (.fwd (forwardTSN s).1 (forwardTSN s).2)
+    else none
+  else none
+
 structure GatherOut where
   rtx : List (List Chunk) := []      -- packets of getDataPacketsToRetransmit
   fresh : List (List Chunk) := []    -- packets with new DATA
   fast : List (List Chunk) := []     -- fast retransmission packets
   admits : List Admit := []
   sisToReset : List (BitVec 16) := []
+  fwd : Option Fwd := none           -- the FORWARD-TSN / I-FORWARD-TSN packet of gatherOutboundForwardTSNPackets
 
 def GatherOut.packets (o : GatherOut) : List (List Chunk) := o.rtx ++ o.fresh ++ o.fast
 
@@ -506,7 +559,7 @@ def gather (s : St) (orc : Oracle) (sel : List Nat) : St × GatherOut :=
      { rtx := bundle s.cfg.mtu il r1.2.1 [] hdr,
        fresh := if newChunks.isEmpty then [] else bundle s.cfg.mtu il newChunks [] hdr,
        fast := if r3.2.isEmpty then [] else bundle s.cfg.mtu il r3.2 [] hdr,
-       admits := r2.2.admits, sisToReset := r2.2.sisToReset })
+       admits := r2.2.admits, sisToReset := r2.2.sisToReset, fwd := fwdOut r3.1 })
 
 /-! ## SACK -/
 
